@@ -485,7 +485,10 @@ fn ir_canon(out: &mut String, n: &crate::ir::Node) {
             out,
             "{} {} {}",
             quant.min,
-            quant.max.map(|m| format!("{}", m)).unwrap_or_else(|| "inf".into()),
+            quant
+                .max
+                .map(|m| format!("{}", m))
+                .unwrap_or_else(|| "inf".into()),
             quant.greedy as u8
         );
     }
@@ -644,7 +647,10 @@ where
 }
 
 /// The start predicate computed for a pattern (after the optional optimization), as in the `S` line.
-pub fn dump_start_predicate<I>(pattern: I, flags: crate::api::Flags) -> Result<String, crate::api::Error>
+pub fn dump_start_predicate<I>(
+    pattern: I,
+    flags: crate::api::Flags,
+) -> Result<String, crate::api::Error>
 where
     I: Iterator<Item = u32> + Clone,
 {
